@@ -83,6 +83,9 @@ def cache_key(e):
   return canonical(_strip_flags(e))
 
 
+TRACED_CONSTANTS = [None, 0, '', 'abc', 7]
+
+
 class Handle:
   """Model of a LazyObject returned for lazy_result_=True."""
 
@@ -161,6 +164,25 @@ class Model:
       if len(self.obj_cache) > BOUND_OBJ:
         self.obj_cache.popitem(last=False)
       res = h
+    if cached:
+      self.fn_cache[key] = res
+      if len(self.fn_cache) > BOUND_FN:
+        self.fn_cache.popitem(last=False)
+    return res
+
+  def describe(self, sel, cached):
+    """counted_describe(<held object | traced constant>): a held object is its own cache key (two handles never share an
+    entry, not even with equal values), a traced constant is keyed by its value."""
+    key = canonical({'k': 'describe', 'arg': list(sel)})
+    if cached:
+      if key in self.fn_cache:
+        self.hits += 1
+        self.fn_cache.move_to_end(key)
+        return self.fn_cache[key]
+      self.misses += 1
+    val = self.deref(Handle(sel[1])) if sel[0] == 'h' else TRACED_CONSTANTS[sel[1]]
+    self.calls['counted_describe'] += 1
+    res = ['described', val]
     if cached:
       self.fn_cache[key] = res
       if len(self.fn_cache) > BOUND_FN:
@@ -274,6 +296,37 @@ def run_history(case):
         lazy = _guard(lambda: lf.pickler.loads(lf.pickler.dumps(lazy)), f'{w}: pickle round trip')
       got = _guard(lambda: lf.maybe_make(lazy), w)
       check(_same_value(got, want), 'value-differs-from-eager', f'{w}: lazy value {got!r}, eager value {want!r}')
+    elif kind == 'describe':
+      # a call whose argument is a held object (the LazyObject an earlier lazy_result_ evaluation returned) or a traced constant
+      sel, cached = op[1], op[2]
+      if sel[0] == 'h':
+        if not handles:
+          continue
+        real_arg, model_h = handles[sel[1] % len(handles)]
+        sel = ['h', model_h.n]
+      else:
+        real_arg = lf.trace(TRACED_CONSTANTS[sel[1] % len(TRACED_CONSTANTS)])
+        sel = ['tc', sel[1] % len(TRACED_CONSTANTS)]
+      before = model.calls['counted_describe']
+      try:
+        want, want_exc = model.describe(sel, cached), None
+      except Missing:
+        want, want_exc = None, 'missing'
+      real_before = targets.CALLS.get('counted_describe', 0)
+      lazy = _guard(lambda: lf.trace(targets.counted_describe)(real_arg, cache_result_=cached), f'{w}: tracing')
+      try:
+        got, got_exc = lf.maybe_make(lazy), None
+      except lf.LazyObjectMissingError:
+        got, got_exc = None, 'missing'
+      except Exception as ex:  # pylint: disable=broad-exception-caught
+        raise crash(ex, w) from ex
+      check(got_exc == want_exc, 'missing-object-behaviour-differs', f'{w}: lazy raised {got_exc!r}, eager model {want_exc!r}')
+      check(targets.CALLS.get('counted_describe', 0) - real_before == model.calls['counted_describe'] - before, 'evaluation-count-differs',
+            f'{w}: counted_describe invoked {targets.CALLS.get("counted_describe", 0) - real_before} times, eager model (with its cache) '
+            f'predicts {model.calls["counted_describe"] - before}')
+      if got_exc is None:
+        check(isinstance(got, list) and len(got) == 2 and got[0] == 'described' and _same_value(got[1], want[1]), 'value-differs-from-eager',
+              f'{w}: lazy value {got!r}, eager value {want!r}')
     elif kind == 'clear_cache':
       lf.clear_cache()
       model.clear_cache()
@@ -404,6 +457,15 @@ def strat_history(tier):
       # a held object is dropped and then asked for: create one, clear the object store, dereference
       exprs = exprs[:3] + [{'k': 'call', 'fn': 'make_counting', 'args': [{'c': draw(st.integers(0, 5))}], 'cache': False, 'lazy': True}]
       ops += [['make', len(exprs) - 1], ['clear_object'], ['deref', draw(st.integers(0, 5))]]
+    if draw(st.integers(0, 3)) == 0:
+      # calls on held objects and on traced constants (also None / falsy ones), cached and not, in a drawn order
+      exprs = exprs[:3] + [{'k': 'call', 'fn': draw(st.sampled_from(['make_counting', 'counted_list', 'counted_falsy'])),
+                            'args': [{'c': draw(st.integers(0, 5))}], 'cache': False, 'lazy': True}]
+      sel = st.one_of(st.tuples(st.just('h'), st.integers(0, 3)).map(list), st.tuples(st.just('tc'), st.integers(0, 4)).map(list))
+      block = [['make', len(exprs) - 1]] + draw(st.lists(st.tuples(st.just('describe'), sel, st.sampled_from([True, True, False])).map(list),
+                                                       min_size=2, max_size=5))
+      pos = draw(st.integers(0, len(ops)))
+      ops[pos:pos] = block
     case = {'exprs': exprs, 'ops': ops}
     if draw(st.integers(0, 3)) == 0:
       case['arr_exprs'] = draw(st.lists(st.builds(
